@@ -208,7 +208,7 @@ def wake(ctx):
         if top.kind in ("ctor", "dtor"):
             continue
         for st, op in field_writes(ctx, f, "generation_"):
-            ok, detail = notify_follows(f, f.pos_of(st), "cv", ["generation_"], CLS)
+            ok, detail = notify_follows(f, f.pos_of(st), "cv", ["generation_"], CLS, fb=ctx.fb)
             ctx.ob(rid, ok, f.loc(st), "the generation bump is followed by cv.notify_all() on every path",
                    "" if ok else detail, fn=top.label, inst=f.qname)
             n += 1
